@@ -14,7 +14,7 @@ THEOREMS = {"CbProps.C05": ["CbProps.C05." + t for t in [
     "flat_row_major", "flat_ok_iff", "flat_lt_size", "flat_injective", "flat_surjective",
     "rejected_store_no_state", "get_set"]]}
 
-PATHS = ["local", "global", "param", "member", "pointer", "checked", "try"]
+PATHS = ["local", "global", "param", "member", "pointer", "checked", "try", "double"]
 
 
 def shapes(maxd=3, maxe=5):
@@ -54,7 +54,10 @@ def render(shape, path, ops, use_vars):
     nd = len(shape)
     T = ty(shape)
     L = []
-    acc = {"local": "a", "global": "a", "param": "a", "member": "s.a", "pointer": "a", "checked": "a", "try": "a"}[path]
+    acc = {"local": "a", "global": "a", "param": "a", "member": "s.a", "pointer": "a", "checked": "a", "try": "a", "double": "a"}[path]
+    if path == "double":
+        # a local array of double; the model's integer value v is stored as v + 0.5
+        T = "double" + T[3:]
     ivars = ", ".join("int i%d" % k for k in range(nd))
     iuse = "".join("[i%d]" % k for k in range(nd))
     if path == "member":
@@ -79,7 +82,7 @@ def render(shape, path, ops, use_vars):
     for k in range(nd):
         L.append(ind * (k + 1) + "for (int j%d = 0; j%d < %d; j%d++) {" % (k, k, shape[k], k))
     flat = " + ".join("j%d * %d" % (k, size(shape[k + 1:])) for k in range(nd))
-    L.append(ind * (nd + 1) + "%s%s = 7 + 3 * (%s);" % (acc, "".join("[j%d]" % k for k in range(nd)), flat))
+    L.append(ind * (nd + 1) + "%s%s = %s + 3 * (%s);" % (acc, "".join("[j%d]" % k for k in range(nd)), "7.5" if path == "double" else "7", flat))
     for k in reversed(range(nd)):
         L.append(ind * (k + 1) + "}")
     L.append("    int t = 0;")
@@ -116,7 +119,7 @@ def render(shape, path, ops, use_vars):
             if op[0] == "g":
                 L.append("    println(%s%s);" % (acc, sub))
             else:
-                L.append("    %s%s = %d;" % (acc, sub, op[2]))
+                L.append(("    %s%s = %s;" % (acc, sub, repr(op[2] + 0.5))) if path == "double" else ("    %s%s = %d;" % (acc, sub, op[2])))
     L.append('    println("DUMP");')
     for k in range(nd):
         L.append(ind * (k + 1) + "for (int j%d = 0; j%d < %d; j%d++) {" % (k, k, shape[k], k))
@@ -162,7 +165,7 @@ def gen_e2e(seed, tier, gates=()):
     n = 900 if quick else 40000
     for _ in range(n):
         s = r.choice(shp)
-        path = r.choice(["local", "global", "param", "member", "pointer"])
+        path = r.choice(["local", "global", "param", "member", "pointer", "double"])
         if path == "pointer":
             s = [r.range(1, 5)]
         if path == "member" and "member3d" in gates and len(s) > 2:
@@ -261,6 +264,8 @@ def main(a):
     for k, (p, ml, mt, mout, o) in enumerate(zip(progs, mlines, meta, mo, outs)):
         dist[mt[1]] = dist.get(mt[1], 0) + 1
         exp = expected(mout)
+        if mt[1] == "double":
+            exp = ("".join((repr(int(l) + 0.5) if l.lstrip("-").isdigit() else l) + "\n" for l in exp[0].split("\n")[:-1]), exp[1])
         if k % 211 == 0 and len(samples) < 5:
             samples.append({"shape": mt[0], "path": mt[1], "ops": mt[2][:4], "expected_exit": exp[1]})
         if "|err|" in mout or ",E" in mout or mout.startswith("E"):
